@@ -10,11 +10,11 @@ open KV KV.Wire
 /-- decoding what was encoded returns the normalised value, consumes exactly the encoding and leaves the
 rest of the stream and of the frame untouched — for either decoder configuration -/
 def RT (cfg : Cfg) (t : Ty) : Prop :=
-  t.wf = true → ∀ v, wt t v = true → ∀ (r : Bytes) (rem : Nat), (encode t v).length ≤ rem →
+  cfg.recs = none → t.wf = true → ∀ v, wt t v = true → ∀ (r : Bytes) (rem : Nat), (encode t v).length ≤ rem →
     decode cfg t ⟨encode t v ++ r, rem⟩ = .ok (norm t v) ⟨r, rem - (encode t v).length⟩
 
 theorem rt_bool (cfg : Cfg) : RT cfg .bool := by
-  intro _ v hv r rem hr
+  intro _ _ v hv r rem hr
   cases v <;> simp [wt] at hv
   rename_i b
   have hl : (encBool b).length = 1 := by simp [encBool]
@@ -27,7 +27,7 @@ theorem rt_int (cfg : Cfg) (t : Ty) (k : Nat) (hk : 0 < k)
     (hdec : ∀ d, decode cfg t d = (readInt k d).bind fun i d => .ok (.int i) d)
     (hwt : ∀ v, wt t v = true → ∃ i, v = .int i ∧ inRange (8 * k) i = true)
     (hnorm : ∀ v, norm t v = v) : RT cfg t := by
-  intro _ v hv r rem hr
+  intro _ _ v hv r rem hr
   obtain ⟨i, rfl, hi⟩ := hwt v hv
   rw [henc] at hr ⊢
   rw [encInt_length] at hr
@@ -48,7 +48,7 @@ theorem rt_int64 (cfg : Cfg) : RT cfg .int64 :=
     (fun v h => by cases v <;> simp [wt] at h; exact ⟨_, rfl, h⟩) (fun v => by cases v <;> simp [norm])
 
 theorem rt_float64 (cfg : Cfg) : RT cfg .float64 := by
-  intro _ v hv r rem hr
+  intro _ _ v hv r rem hr
   cases v <;> simp [wt] at hv
   rename_i i
   simp only [encode, decode, norm] at hr ⊢
@@ -75,7 +75,7 @@ theorem readLen_after (cfg : Cfg) (bs r : Bytes) (rem k : Nat) (hr : k + bs.leng
   omega
 
 theorem rt_string (cfg : Cfg) (c n : Bool) : RT cfg (.string c n) := by
-  intro _ v hv r rem hr
+  intro _ _ v hv r rem hr
   cases v <;> simp [wt] at hv
   rename_i s
   simp only [encode, norm] at hr ⊢
@@ -118,7 +118,7 @@ theorem rt_string (cfg : Cfg) (c n : Bool) : RT cfg (.string c n) := by
       rw [lenOfU_small cfg s.length (by omega), readLen_after cfg s r rem _ hr]
 
 theorem rt_bytes (cfg : Cfg) (c n : Bool) : RT cfg (.bytes c n) := by
-  intro _ v hv r rem hr
+  intro _ _ v hv r rem hr
   cases v <;> simp [wt] at hv
   rename_i b
   simp only [encode] at hr ⊢
@@ -161,7 +161,7 @@ theorem rt_bytes (cfg : Cfg) (c n : Bool) : RT cfg (.bytes c n) := by
       rw [lenOfU_small cfg s.length (by omega), readLen_after cfg s r rem _ hr]
 
 theorem rt_records (cfg : Cfg) : RT cfg .records := by
-  intro _ v hv r rem hr
+  intro hrec _ v hv r rem hr
   have : ∃ s, v = .records (some s) ∧ 0 < s.length ∧ s.length < 2 ^ 31 := by
     cases v with
     | records p => cases p with
@@ -170,7 +170,7 @@ theorem rt_records (cfg : Cfg) : RT cfg .records := by
     | _ => simp [wt] at hv
   obtain ⟨s, rfl, hv⟩ := this
   simp only [encode, norm, List.length_append, encInt_length] at hr ⊢
-  simp only [decode, List.append_assoc]
+  simp only [decode, hrec, List.append_assoc]
   have hin : inRange (8 * 4) (s.length : Int) = true := by
     simp only [inRange, Bool.and_eq_true, decide_eq_true_eq]; constructor <;> omega
   rw [readInt_encInt 4 _ rem _ (by decide) hin (by omega)]
@@ -286,7 +286,7 @@ theorem elems_length_le (t : Ty) (hpw : PW t) (hp : posWidth t = true) :
     simp only [encodeElems, List.length_append, List.length_cons]
     omega
 
-theorem rt_elems (cfg : Cfg) (t : Ty) (ht : RT cfg t) (hpw : PW t) (hwf : t.wf = true) (hp : posWidth t = true) :
+theorem rt_elems (cfg : Cfg) (hrec : cfg.recs = none) (t : Ty) (ht : RT cfg t) (hpw : PW t) (hwf : t.wf = true) (hp : posWidth t = true) :
     ∀ vs, wtElems t vs = true → ∀ (r : Bytes) (rem : Nat), (encodeElems t vs).length ≤ rem →
       decodeElems (decode cfg t) (zero t) vs.length ⟨encodeElems t vs ++ r, rem⟩
         = .ok (normElems t vs) ⟨r, rem - (encodeElems t vs).length⟩
@@ -298,15 +298,15 @@ theorem rt_elems (cfg : Cfg) (t : Ty) (ht : RT cfg t) (hpw : PW t) (hwf : t.wf =
     simp only [List.length_cons, decodeElems, encodeElems, normElems, List.append_assoc]
     have h0 : ¬ (rem = 0) := by omega
     simp only [h0, if_false]
-    rw [ht hwf v hv.1 _ rem (by omega)]
+    rw [ht hrec hwf v hv.1 _ rem (by omega)]
     simp only [Res.bind]
-    rw [rt_elems cfg t ht hpw hwf hp vs hv.2 r _ (by omega)]
+    rw [rt_elems cfg hrec t ht hpw hwf hp vs hv.2 r _ (by omega)]
     simp only [List.length_append]
     congr 2
     omega
 
 theorem rt_array (cfg : Cfg) (c n : Bool) (t : Ty) (ht : RT cfg t) (hpw : PW t) : RT cfg (.array c n t) := by
-  intro hwf v hv r rem hr
+  intro hrec hwf v hv r rem hr
   simp only [Ty.wf, Bool.and_eq_true, Bool.not_eq_true'] at hwf
   obtain ⟨⟨hp, _⟩, hwft⟩ := hwf
   cases v <;> simp [wt] at hv
@@ -341,18 +341,18 @@ theorem rt_array (cfg : Cfg) (c n : Bool) (t : Ty) (ht : RT cfg t) (hpw : PW t) 
       rw [readInt_encInt 4 _ rem _ (by decide) hin (by omega)]
       have h0 : ¬ ((vs.length : Int) < 0) := by omega
       simp only [Res.bind, h0, if_false]
-      rw [allocElems_ok cfg vs.length _ (by simp; omega)]
+      rw [allocElems_ok cfg vs.length _ (by simp; omega) (by simp; omega)]
       simp only [Res.bind]
-      rw [rt_elems cfg t ht hpw hwft hp vs hv.2 r _ (by omega)]
+      rw [rt_elems cfg hrec t ht hpw hwft hp vs hv.2 r _ (by omega)]
       simp only [Res.bind, Nat.sub_sub]
     · simp only [if_true, List.length_append] at hr ⊢
       simp only [decode, if_true, List.append_assoc]
       rw [readUvarint_uvarint (vs.length + 1) rem _ (by omega) (by omega)]
       have h1 : ¬ (vs.length + 1 < 1) := by omega
       simp only [Res.bind, h1, if_false, Nat.add_sub_cancel]
-      rw [lenOfU_small cfg vs.length (by omega), allocElems_ok cfg vs.length _ (by simp; omega)]
+      rw [lenOfU_small cfg vs.length (by omega), allocElems_ok cfg vs.length _ (by simp; omega) (by simp; omega)]
       simp only []
-      rw [rt_elems cfg t ht hpw hwft hp vs hv.2 r _ (by omega)]
+      rw [rt_elems cfg hrec t ht hpw hwft hp vs hv.2 r _ (by omega)]
       simp only []
       congr 2
       omega
@@ -360,7 +360,7 @@ theorem rt_array (cfg : Cfg) (c n : Bool) (t : Ty) (ht : RT cfg t) (hpw : PW t) 
 /-! ### structs -/
 
 theorem rt_unit (cfg : Cfg) (flex : Bool) : RT cfg (.unit flex) := by
-  intro _ v hv r rem hr
+  intro _ _ v hv r rem hr
   have hvs : v = .struct [] [] := by
     cases v with
     | struct a b => cases a <;> cases b <;> simp [wt] at hv; rfl
@@ -417,7 +417,7 @@ theorem regular_encode (t : Ty) (v : Val) (h : regularOk t = true) :
   subst h
   simp [encode]
 
-theorem rt_fields (cfg : Cfg) : ∀ (fs : List Ty), (∀ t ∈ fs, RT cfg t) → wfList fs = true → fs.all regularOk = true →
+theorem rt_fields (cfg : Cfg) (hrec : cfg.recs = none) : ∀ (fs : List Ty), (∀ t ∈ fs, RT cfg t) → wfList fs = true → fs.all regularOk = true →
     ∀ vs, wtFields fs vs = true → ∀ (r : Bytes) (rem : Nat), (encodeFields fs vs).length ≤ rem →
       decodeFields cfg fs ⟨encodeFields fs vs ++ r, rem⟩ = .ok (normFields fs vs) ⟨r, rem - (encodeFields fs vs).length⟩
   | [], _, _, _, vs, hv, r, rem, _ => by
@@ -432,14 +432,14 @@ theorem rt_fields (cfg : Cfg) : ∀ (fs : List Ty), (∀ t ∈ fs, RT cfg t) →
       simp only [List.all_cons, Bool.and_eq_true] at hreg
       simp only [encodeFields, regular_encode t v hreg.1, List.length_append] at hr ⊢
       simp only [decodeFields, normFields, List.append_assoc]
-      rw [hrt t (by simp) hwf.1 v hv.1 _ rem (by omega)]
+      rw [hrt t (by simp) hrec hwf.1 v hv.1 _ rem (by omega)]
       simp only [Res.bind]
-      rw [rt_fields cfg ts (fun t' h => hrt t' (by simp [h])) hwf.2 hreg.2 vs hv.2 r _ (by omega)]
+      rw [rt_fields cfg hrec ts (fun t' h => hrt t' (by simp [h])) hwf.2 hreg.2 vs hv.2 r _ (by omega)]
       simp only [Res.bind, Nat.sub_sub]
 
 theorem rt_struct (cfg : Cfg) (flex : Bool) (fs : List Ty) (ids : List Int) (ts : List Ty)
     (hfs : ∀ t ∈ fs, RT cfg t) : RT cfg (.struct flex fs ids ts) := by
-  intro hwf v hv r rem hr
+  intro hrec hwf v hv r rem hr
   simp only [Ty.wf, Bool.and_eq_true] at hwf
   obtain ⟨⟨⟨hwfl, hreg⟩, hmark⟩, _⟩ := hwf
   cases v <;> simp [wt] at hv
@@ -449,10 +449,10 @@ theorem rt_struct (cfg : Cfg) (flex : Bool) (fs : List Ty) (ids : List Int) (ts 
   simp only [decode]
   cases flex
   · simp only [Bool.false_eq_true, if_false, List.append_nil] at hr ⊢
-    rw [rt_fields cfg fs hfs hwfl hreg vs hv.1 r rem hr]
+    rw [rt_fields cfg hrec fs hfs hwfl hreg vs hv.1 r rem hr]
     simp [Res.bind]
   · simp only [if_true, List.length_append] at hr ⊢
-    rw [List.append_assoc, rt_fields cfg fs hfs hwfl hreg vs hv.1 _ rem (by omega)]
+    rw [List.append_assoc, rt_fields cfg hrec fs hfs hwfl hreg vs hv.1 _ rem (by omega)]
     simp only [Res.bind]
     rw [readUvarint_uvarint 0 _ r (by decide) (by omega)]
     have hl : lenOfU cfg 0 = 0 := lenOfU_small cfg 0 (by decide)
